@@ -214,6 +214,8 @@ class Puppet:
         if op['op'] in ('inc', 'dec') and 'amt' in op and op.get('p') in w.pools and not w.strict:
             level = w.pools[op['p']].levels.a
             amt = min(op['amt'], level) if op['op'] == 'dec' else max(0, min(op['amt'], 3 - level))
+            if (level - amt if op['op'] == 'dec' else level + amt) > 3:
+                return None     # (generated programs) the model bounds the level that a change may produce: MaxLevel
             op = dict(op, amt=amt)
         return op
 
